@@ -22,6 +22,7 @@ structure Cur where
   job : RState JobMap.St := .ok {}
   sig : RState SigMap.St := .ok {}
   sig2 : RState SigMap2.St := .ok {}
+  race : RaceMap.St := {}
   ack : RState AckMap.St := .ok {}
   wake : RState WakeMap.St := .ok {}
   pool : RState PoolMap.St := .ok {}
@@ -39,6 +40,15 @@ def finish (sel : List String) (c : Cur) (e : EndInfo) : IO Unit := do
       summary := summary ++ s!" {id}={if vs.isEmpty then "ok" else "BAD"}"
       for v in vs do
         viols := viols.push s!"V {c.idx} {id} {v}"
+  if sel.contains "C19" then
+    let rs := c.race.s.reports
+    summary := summary ++ s!" C19={if !c.race.seen then "na" else if rs.isEmpty then "ok" else "BAD"}"
+    -- one line per pair of source sites
+    let mut seenPairs : List (Nat × Nat) := []
+    for r in rs do
+      if !seenPairs.contains (r.siteI, r.siteJ) then
+        seenPairs := (r.siteI, r.siteJ) :: seenPairs
+        viols := viols.push s!"V {c.idx} C19 {RaceMap.describe c.race r}"
   let entered := tr.any (fun o => match o with | .enter .. => true | _ => false)
   let nt := if entered && c.switches ≥ 3 then 1 else 0
   let (model1, ml1) : String × List String := match c.res with
@@ -97,6 +107,7 @@ partial def loop (h : IO.FS.Stream) (sel : List String) (c : Cur) : IO Unit := d
       | some rl => { c with res := ResMap.feed c.res (c.nlines + 1) rl, job := JobMap.feed c.job (c.nlines + 1) rl,
                                sig := SigMap.feed c.sig (c.nlines + 1) rl,
                                sig2 := SigMap2.feed c.sig2 (c.nlines + 1) rl,
+                               race := (if sel.contains "C19" then RaceMap.feed c.race rl else c.race),
                                ack := AckMap.feed c.ack (c.nlines + 1) rl,
                                wake := WakeMap.feed c.wake (c.nlines + 1) rl,
                                pool := PoolMap.feed c.pool (c.nlines + 1) rl }
